@@ -174,6 +174,42 @@ def run(ctx):
         if len(ctx.violations) > 3:
             break
     cleaning_model(ctx)
+    cleaning_parallel(ctx)
+
+
+def cleaning_parallel(ctx):
+    """simple_cleaning -p in0 in1 out0 out1: a pair is kept exactly when BOTH lines are kept by the tool on their own (stdin
+    mode, same options), whatever side the offending line is on; the outputs stay aligned."""
+    rng = ctx.rng
+    good = [b"The quick brown fox jumps over the lazy dog, twice.", b"Ein ganz normaler deutscher Satz, der lang genug ist.", b"Une phrase ordinaire, assez longue pour passer."]
+    bad = [b"Ill-formed UTF-8 right here \xff\xfe in an otherwise decent sentence.", b"a control \x01 character inside an otherwise decent sentence", b"too short",
+           b"a run of xxxxxxxxxx characters in an otherwise decent sentence.", b"1234567890 1234567890 1234567890 1234567890", b"\xce\x95\xce\xbb\xce\xbb\xce\xb7\xce\xbd\xce\xb9\xce\xba\xce\xac \xce\xba\xce\xb5\xce\xaf\xce\xbc\xce\xb5\xce\xbd\xce\xbf \xce\xb5\xce\xb4\xcf\x8e, \xce\xb1\xcf\x81\xce\xba\xce\xb5\xcf\x84\xce\xac \xce\xbc\xce\xb1\xce\xba\xcf\x81\xcf\x8d."]
+    for opts in ([], ["--scripts", "Latin"], ["--min-chars", "5", "--character-run", "3"]):
+        def alone(l):
+            return pvlib.run_tool([ctx.bin("simple_cleaning")] + opts, l + b"\n", env=pvlib.san_env())[1] == l + b"\n"
+        verdict = {l: alone(l) for l in good + bad}
+        for _ in range(4 if ctx.tier == "quick" else 30):
+            n = rng.randrange(1, 14)
+            a = [rng.choice(good + bad) if rng.random() < 0.5 else rng.choice(good) for _ in range(n)]
+            b = [rng.choice(good + bad) if rng.random() < 0.5 else rng.choice(good) for _ in range(n)]
+            f = [os.path.join(ctx.tmp, n_) for n_ in ("pin0", "pin1", "pout0", "pout1")]
+            open(f[0], "wb").write(text(a))
+            open(f[1], "wb").write(text(b))
+            for o_ in f[2:]:
+                if os.path.exists(o_):
+                    os.unlink(o_)
+            st, out, err = pvlib.run_tool([ctx.bin("simple_cleaning")] + opts + ["-p"] + f, env=pvlib.san_env())
+            ctx.count("simple_cleaning.parallel", 1, [(tuple(opts), tuple(a), tuple(b))])
+            o0 = open(f[2], "rb").read() if os.path.exists(f[2]) else b""
+            o1 = open(f[3], "rb").read() if os.path.exists(f[3]) else b""
+            keep = [i for i in range(n) if verdict[a[i]] and verdict[b[i]]]
+            if st != 0 or o0 != text([a[i] for i in keep]) or o1 != text([b[i] for i in keep]):
+                wrong = next((i for i in range(n) if ((a[i] + b"\n") in o0 or (b[i] + b"\n") in o1) != (i in keep)), None)
+                pvlib.report_violation(ctx, "cleaning-par:" + hx(text(a))[:40], {"argv": ["simple_cleaning"] + opts + ["-p", "in0", "in1", "out0", "out1"], "options": opts,
+                                       "in0_hex": hx(text(a)), "in1_hex": hx(text(b)), "status": st, "out0": hx(o0)[:600], "out1": hx(o1)[:600], "pair_index": wrong},
+                                       summary=f"simple_cleaning {' '.join(opts)} -p: kept pairs are not exactly those whose two lines are each kept on their own "
+                                               f"(pair {wrong}: {a[wrong][:40] if wrong is not None else None!r} / {b[wrong][:40] if wrong is not None else None!r})")
+                return
 
 
 TOK = ["hello", "world", "Привет", "мир", "λόγος", "2024", "3.14", ",", ".", "!", "?", " ", " ", "  ", "\u00a0", "\u3000", "\u0301", "😀", "漢字",
@@ -233,4 +269,11 @@ def cleaning_model(ctx):
 
 
 def replay(ctx, rp):
+    if "in0_hex" in rp:
+        f = [os.path.join(ctx.tmp, n_) for n_ in ("pin0", "pin1", "pout0", "pout1")]
+        open(f[0], "wb").write(unhx(rp["in0_hex"]))
+        open(f[1], "wb").write(unhx(rp["in1_hex"]))
+        st, out, err = pvlib.run_tool([ctx.bin("simple_cleaning")] + rp["options"] + ["-p"] + f, env=pvlib.san_env())
+        print("status", st, "out0", open(f[2], "rb").read()[:300], "out1", open(f[3], "rb").read()[:300])
+        return
     pvlib.generic_replay(ctx, rp)
